@@ -195,15 +195,26 @@ def run(ctx):
             dep = 'stop_reason' in srcf
             ctx.ob('R07.9', 'worker_rpc_loop|reason derives from stop_reason', dep,
                    'the reason handed to on_remove_worker depends on the recorded stop reason of the worker', b.loc(bi))
-            # and the read of stop_reason is not guarded by a test of the observed reason (override is unconditional):
+            # the override is unconditional: no branch between the stop_reason read and the call depends on the observed reason
             reads = [bj for o, bb, bj, st in field_read_sites(prog, T + 'server::worker::Worker', 'stop_reason') if bb.path == b.path]
-            flows = b.variant_flow(LWR)
-            guarded = False
-            for key, st in flows.items():
-                for rb in reads:
-                    vs = st.get(rb)
-                    if vs is not None and len(vs) < len(prog.variants(LWR)):
-                        guarded = True
-            ctx.ob('R07.9', 'worker_rpc_loop|stop_reason override unconditional', bool(reads) and not guarded,
-                   'the recorded stop reason is consulted regardless of which disconnect reason was observed', b.loc(reads[0]) if reads else b.loc(bi))
+            region = (b.reach_from(reads) & b.coreach([bi])) if reads else set()
+            stop_derived = set()
+            for x in range(len(b.locals)):
+                if 'stop_reason' in local_field_sources(b, x):
+                    stop_derived.add(x)
+            bad = []
+            for x in sorted(region):
+                tt = b.term[x]
+                if tt and tt['k'] == 'sw':
+                    l = op_local(tt['op'])
+                    if l is None:
+                        continue
+                    for y in b.derived_from(l):
+                        ty = b.locals[y][0]
+                        if ty.replace('&', '').strip() == LWR and y not in stop_derived:
+                            bad.append(x)
+                            break
+            ctx.ob('R07.9', 'worker_rpc_loop|stop_reason override unconditional', bool(reads) and not bad,
+                   'no branch between reading the recorded stop reason and on_remove_worker depends on the observed disconnect reason (a requested stop must win over a later heartbeat/connection loss)',
+                   b.loc(bad[0]) if bad else (b.loc(reads[0]) if reads else b.loc(bi)))
     ctx.floor('R07.9', found, 1, 'on_remove_worker call in worker_rpc_loop')
